@@ -27,7 +27,10 @@ NilHolders   == {"[]Object{nil}", "[]List{nil}", "map[string]Object{nil}", "map[
 Unsupported  == {"struct", "pointer", "chan", "func", "json.Number", "[]byte", "uintptr", "complex128", "[]int32", "[]int8", "map[int]any",
                  "map[string]int64", "time.Duration", "named int8", "named string", "anytype.Type", "typed nil pointer", "[][]any", "array"}
 
-Classes == SignedInts \cup UnsignedInts \cup Floats \cup {"string", "bool", "nil", "Object", "List"}
+\* user types embedding Object / List and registered with Init are Objects / Lists (stored by identity)
+DerivedClasses == {"derived Object", "derived List"}
+
+Classes == SignedInts \cup UnsignedInts \cup Floats \cup {"string", "bool", "nil", "Object", "List"} \cup DerivedClasses
            \cup MapFlavours \cup SliceFlavours \cup NilHolders \cup Unsupported
 
 Reject == "reject"
@@ -39,13 +42,15 @@ Normalize(c) ==
     [] c = "string" -> "str"
     [] c = "bool" -> "bool"
     [] c = "nil" -> "nil"
+    [] c = "derived Object" -> "O"
+    [] c = "derived List" -> "L"
     [] c = "Object" \/ c \in MapFlavours \/ c \in {"map[string]Object{nil}", "map[string]List{nil}"} -> "O"
     [] c = "List" \/ c \in SliceFlavours \/ c \in {"[]Object{nil}", "[]List{nil}", "[]any{nil}"} -> "L"
     [] OTHER -> Reject
 
 \* containers built from Go maps / slices are fresh; anytype containers are stored as they are
 Fresh(c) == c \in MapFlavours \cup SliceFlavours \cup NilHolders
-StoredByIdentity(c) == c \in {"Object", "List"}
+StoredByIdentity(c) == c \in {"Object", "List"} \cup DerivedClasses
 
 \* which typed getters succeed for a stored kind (none for nil)
 Getters(k) == IF k \in {Reject, "nil"} THEN {} ELSE {k}
